@@ -132,7 +132,11 @@ def liveness(ctx):
     # property's rules read
     from .scope import CRATES_OF
     mine = set(CRATES_OF.get(pid, []))
+    residual = set(json.load(open(os.path.join(VERIF, "refactors", "residual.json")))["residual"]) \
+        if os.path.exists(os.path.join(VERIF, "refactors", "residual.json")) else set()
     for pf in sorted(glob.glob(os.path.join(VERIF, "refactors", "*.patch"))):
+        if os.path.basename(pf)[:-6] in residual:
+            continue        # documented residual false alarms (DESIGN.md section 17): re-implementations of trusted primitives
         touched = set(re.findall(r"^\+\+\+ b/(contracts|packages)/([^/]+)/", open(pf).read(), re.M))
         if any(k == "packages" for k, _ in touched) or any(n.replace("-", "_") in mine for _, n in touched):
             benign.append(pf)
